@@ -53,7 +53,7 @@ ASSUMPTIONS = [
     "a recorded value None and a recorded empty string both read back as an empty cell (CSV cannot distinguish them)",
 ]
 TIERS = {
-    "quick": {"examples": 1000, "budget_s": 50},
+    "quick": {"examples": 1000, "budget_s": 150},
     "thorough": {"examples": 62500, "budget_s": 800},
 }
 
@@ -163,7 +163,13 @@ def check_case(case) -> list[Violation]:
         got = [(x.tick_time, x.value, type(x.value)) for x in plot_log.entries[e["name"]].values]
         want = [(float(t), v, type(v)) for t, v in e["values"]]
         assert got == want, "harness: Dto.PlotLogEntryValue changed a generated value: %r vs %r" % (got, want)
-    text = generate_csv_string(plot_log, _recent_run()).getvalue()
+    try:
+        text = generate_csv_string(plot_log, _recent_run()).getvalue()
+    except Exception as ex:   # the subject (not the harness) failed: every plot log in the domain must be exportable
+        import traceback
+        where = traceback.extract_tb(ex.__traceback__)[-1]
+        return [Violation("export-raises:%s:%s" % (type(ex).__name__, where.name), "generate_csv_string raised %s: %s (at %s:%s)"
+                          % (type(ex).__name__, ex, where.filename.rsplit("/", 1)[-1], where.lineno), case)]
     parsed = list(csv.reader(io.StringIO(text, newline="")))
     out: list[Violation] = []
     if len(parsed) < N_META_ROWS + 1 or parsed[N_META_ROWS - 1] != []:
